@@ -51,8 +51,23 @@ func TestC17Batches(t *testing.T) {
 		c := sim.New(sim.Options{})
 		c.NoRecord = true
 		var nodes []*corev1.Node
+		// now and then a node of the batch carries an override annotation that cannot be decoded: its pod is built from
+		// the template all the same, and nothing about it may disturb the rest of the parallel batch
+		badAnn := map[int]bool{}
+		if rapid.IntRange(0, 3).Draw(rt, "undecodableOverrideAnnotations") == 0 {
+			for _, i := range rapid.SliceOfNDistinct(rapid.IntRange(0, n-1), 1, minInt(2, n), func(i int) int { return i }).Draw(rt, "badAnnotationNodes") {
+				badAnn[i] = true
+			}
+		}
 		for i := 0; i < n; i++ {
-			nodes = append(nodes, c.AddNode(fmt.Sprintf("n%03d", i), map[string]string{"zone": "a"}, nil))
+			nd := c.AddNode(fmt.Sprintf("n%03d", i), map[string]string{"zone": "a"}, nil)
+			if badAnn[i] {
+				c.MutateNode(nd.Name, func(x *corev1.Node) {
+					x.Annotations = map[string]string{"resources.extendeddaemonset.datadoghq.com/ns1.foo.agent": "{"}
+				})
+				nd = c.Node(nd.Name)
+			}
+			nodes = append(nodes, nd)
 		}
 		st := edsv1.ExtendedDaemonSetSpecStrategy{}
 		mp := int32(1000)
